@@ -47,6 +47,21 @@ class XmlEventWriter(XmlWriter):
             short_empty_elements=True,
         )
 
+    def set_characters(self, data: str) -> None:
+        """Characters notification receiver.
+
+        A literal carriage return is normalized to a line feed by
+        every xml parser, write it as a character reference.
+
+        Args:
+            data: The characters data to write
+        """
+        head, *parts = data.split("\r")
+        self.handler.characters(head)
+        for part in parts:
+            self.handler.ignorableWhitespace("&#13;")
+            self.handler.characters(part)
+
     def start_tag(self, qname: str) -> None:
         """Start tag notification receiver.
 
